@@ -384,6 +384,13 @@ class RestrictedNodeVisitor(ast.NodeVisitor):
         if not isinstance(node, self._whitelist):
             # only permit whitelisted operations
             raise _RestrictedEvalError(node)
+        if (
+            isinstance(node, ast.Name)
+            and node.id in ('__debug__', '__builtins__')
+        ):
+            # these names resolve without being supplied as variables
+            # (compile-time constant / the globals passed to eval)
+            raise _RestrictedEvalError(node)
         return super().visit(node)
 
 
